@@ -157,10 +157,43 @@ def check(ctx):
     run.add('C05.dispatch', pe.module.name, pe.qualname, 'branch coverage', not missing,
             f'all {len(need)} declaration classes have a branch' if not missing else
             f'no branch for <class> {missing}: such declarations are silently dropped')
-    unwritten = sorted(set(fc_fields) - set(written))
+    # only the declaration containers (lists of ast classes) have to be fed by the parser; a field of another shape
+    # (a cache, a counter) is not part of the parsed document
+    unwritten = sorted(f for f in set(fc_fields) - set(written) if elem_cls(f) is not None)
     run.add('C05.dispatch', pe.module.name, pe.qualname, 'container coverage', not unwritten,
             'every FileContents container is fed' if not unwritten else f'containers never fed: {unwritten}')
     run.floor('C05.dispatch', 20)
+
+    # the nested types of an interface are handed on through Types.enums / Types.subints: complete, order-preserving
+    # selections of `elements` by class (E4 evaluation of the two properties)
+    from ..template import Evaluator, TList, RepL, Sym as TSym
+    ev_ = Evaluator(prog, ctx.cg)
+    types_cls = amod.classes.get('Types')
+    for prop_name, want_cls in (('enums', 'Enum'), ('subints', 'SubInt')):
+        m_ = types_cls.methods.get(prop_name) if types_cls else None
+        if m_ is None:
+            run.error('C05.dispatch', amod.name, 'Types', prop_name, f'Types.{prop_name} vanished')
+            continue
+        del ev_.opaque_log[:]
+        val = ev_.eval_entry(m_)
+        ok, why = None, f'Types.{prop_name} is not modelled: {sorted(set(ev_.opaque_log))[:2] or repr(val)[:80]}'
+        if isinstance(val, TList) and len(val.items) == 1 and isinstance(val.items[0], RepL) and not ev_.opaque_log:
+            r = val.items[0]
+            base_ok = isinstance(r.src.base, TSym) and r.src.base.path[-1:] == ('elements',) and r.src.base.root.split('#')[0] == 'self'
+            elem_ok = len(r.items) == 1 and isinstance(r.items[0], TSym) and r.items[0].key() == r.src.var.key()
+            filt = [f for f in r.src.filters]
+            filt_ok = len(filt) == 1 and filt[0].op == 'isinstance' and filt[0].args[0].key() == r.src.var.key() and filt[0].args[1] == want_cls
+            if r.src.order:
+                ok, why = False, (f'Types.{prop_name} selects from a partial / reordered view of the elements ({r.src.order}): nested '
+                                  f'{want_cls} declarations are dropped or reordered')
+            elif base_ok and elem_ok and filt_ok:
+                ok, why = True, f'Types.{prop_name} = every {want_cls} of elements, in order'
+            else:
+                ok, why = False, f'Types.{prop_name} is not the selection of all {want_cls} elements ({r.src!r})'[:200]
+        if ok is None:
+            run.error('C05.dispatch', amod.name, f'Types.{prop_name}', prop_name, why)
+        else:
+            run.add('C05.dispatch', amod.name, f'Types.{prop_name}', f'Types.{prop_name}', ok, why)
 
     # parse_types dispatch
     pt = jmod.functions.get('parse_types')
